@@ -32,6 +32,14 @@ partial def toTy (j : Json) : J.R Ty := do
 
 def env : Env := concreteEnv
 
+def toWraps (j : Json) : J.R (List Wrap) := do
+  (← arr j).mapM (fun w => do
+    match (← rawStr w) with
+    | "opt" => pure Wrap.opt
+    | "ann" => pure Wrap.annArrow
+    | "doc" => pure Wrap.annDoc
+    | s => throw s!"bad wrap {s}")
+
 def toParam (j : Json) : J.R Param := do
   let d ← match fld j "default" with
     | some x => do pure (some (← toV x))
@@ -62,6 +70,20 @@ def handle (fn : String) (a : Json) : J.R Json := do
       | [n, v] => pure ((← str n), (← toV v))
       | _ => throw "bad arg")
     pure (obj [("kwargs", ofKw (callKwargs env sig args)), ("echo", ofKw (echoSig env sig args))])
+  | "hschema" =>
+    let t ← toTy (← field a "ty")
+    let ws ← toWraps (← field a "wraps")
+    pure (obj [("param", Json.str (atyText (arrowTopH ws t))), ("result", Json.str (atyText (arrowTopH ws t))),
+               ("nullable", ofBool (peelOpt ws).2)])
+  | "hvalue" =>
+    -- a value under a wrapped hint: `ty` is the Optional-free core type
+    let t ← toTy (← field a "ty")
+    let ws ← toWraps (← field a "wraps")
+    let v ← toV (← field a "v")
+    let rt := resolved ws t
+    pure (obj [("param", ofR (tripH env ws t v)), ("echo", ofR (echoH env ws t v)), ("norm", ofV (norm env rt v)),
+               ("inhabits", ofBool (inhabits env rt v)), ("wellTyped", ofBool (wellTyped env rt v)),
+               ("supported", ofBool (supported rt)), ("regular", ofBool (regular ws))])
   | "native" =>
     match nativeConv (← natF a "kind") (← natF a "p") (← natF a "s") (← intF a "a") (← intF a "b") with
     | some (x, y) => pure (ofList [ofInt x, ofInt y])
